@@ -30,6 +30,7 @@ RULE = (
     ' Round 5: cases also run with the library logging at DEBUG, with set-up in a foreign context/thread, and with the same line spelled as MQTT topic levels + payload through a real MQTTClient on a fake broker (same reference verdict).'
     ' Round 6: the MQTT spelling uses 8 topic prefixes (incl. the README default; digits that also occur in ids); a well-formed line rejected on that path is reported.'
     ' Round 7: format-string metacharacters among the odd spellings; id-request warm-ups enumerated.'
+    ' Round 13: `known` (the sender and a stored value are in the registry: the yielded fields still spell the line).'
     ' Round 12: `presend` (the controller sent the same message just before the line arrives: it is still accepted or rejected, never swallowed).'
     ' Round 8: `stream` path (the line as bytes through a real StreamReader); MQTT path preceded by another message on the same topic.'
     ' Round 9: BOM/zero-width/NUL prefixes and canonically decomposable characters on every path.'
@@ -116,6 +117,7 @@ def strategy(tier: str):
             "mqtt_repeat": st.booleans(),
             "stream": st.sampled_from((False, False, True)),  # the same line as bytes on a serial/TCP stream
             "presend": st.sampled_from((False, False, False, True)),
+            "known": st.sampled_from((False, False, True)),
         }
     )
 
@@ -151,6 +153,11 @@ def enumerate_cases(tier: str):
                 yield {"version": version, "line": head + inner + "\n", "stream": True}
                 yield {"version": version, "line": head + inner + "\n", "mqtt": True, "mqtt_repeat": True}
                 yield {"version": version, "line": head + inner + "\n", "mqtt": True, "mqtt_repeat": True, "mqtt_prefix": "mygateway1-out"}
+    # well-formed lines from a node the gateway knows, with a value of that type stored (requests are answered, sets recorded, ...)
+    for version in ("1.4", "2.0", "2.2"):
+        for text in ("1;0;2;1;0;now;please", "1;0;2;0;0;", "1;0;1;0;0;21.5", "1;0;1;1;0;a;b", "1;255;3;0;0;55", "1;255;3;0;6;M", "1;255;3;0;1;", "1;255;0;0;17;2.1", "1;0;0;0;6;desc;x", "1;255;4;0;0;ff",
+                     "1;255;3;1;22;7", "1;255;3;0;11;sketch;name", "1;0;2;1;2;x"):
+            yield {"version": version, "line": text + "\n", "known": True}
     # well-formed lines that the controller itself sent just before (the node echoes a command that carried the ack flag)
     for version in ("1.4", "2.0", "2.2"):
         for text in ("4;1;1;1;0;9", "4;1;1;0;0;9", "4;1;2;1;0;", "4;255;3;1;18;", "4;255;3;0;13;", "4;255;3;1;6;M", "0;255;3;1;2;", "4;255;4;1;0;00", "4;1;1;1;2;on;off"):
@@ -376,6 +383,23 @@ def _run_case(case: dict) -> Outcome:
                 return fail("swallowed-after-own-send", f"{line!r} under {version}, received after the controller sent the same message: neither accepted nor rejected", classes=classes)
             if status == "leak":
                 return fail(f"listen-leak:{env.exc_sig(value)}", f"{line!r} received after the controller sent the same message: {value!r}", classes=classes)
+    if case.get("known") and verdict == "accept" and None not in ref["values"]:
+        # the gateway knows the sender: node and child are in its registry and a value of that type is stored (what the line
+        # decodes to does not depend on what the controller knows)
+        async def with_state():
+            gateway, _transport = env.make_gateway(version, ctx=ctx)
+            vals = ref["values"]
+            env.install_registry(gateway.nodes, {str(vals[0]): {"protocol_version": "2.0", "children": {str(vals[1]): {"child_type": 6, "values": {str(vals[4]): "20.5"}}}}})
+            return await env.rx(gateway, line)
+
+        status, value = env.run(with_state())
+        classes += ("known-sender",)
+        if status == "leak":
+            return fail(f"listen-leak:{env.exc_sig(value)}", f"{line!r} from a known node under {version}: {value!r}", classes=classes)
+        if status == "ok":
+            fields = env.msg_fields(value)
+            if fields[:5] != ref["values"] or not payload_matches(ref["rest"], fields[5]):
+                return fail("misdecoded:known-sender", f"{line!r} from a known node (value stored) was yielded as {fields}", classes=classes)
     if case.get("stream"):
         got = _via_stream(version, line, ctx)
         if got is not None:
